@@ -48,7 +48,10 @@ Record wst := {
   cur3 : option N;      (* … and as read a third time, after the store has been consulted: findEligibleUtxos naming the
                            first selected address, the script closure of signWitnessTx *)
   st : store;
-  taskchan : bool       (* h.taskChan has been created by the worker goroutine *)
+  taskchan : bool;      (* h.taskChan has been created by the worker goroutine *)
+  evicted : bool        (* km.currentKeystore still names a keystore that km.managedKeystores no longer holds: a failed NewAddress
+                           whose reload of the keystore failed too dropped the cached entry (needs a failing database: after
+                           Stop, or two storage faults). CurrentKeystore() then answers nil: [cur] = None *)
 }.
 
 (* one switch per site found to panic; true = repaired *)
@@ -64,18 +67,24 @@ Record fixes := {
                              own, later read of CurrentKeystore() for nil *)
   fx_import_rec : bool;   (* asyncImport skips a transaction for which filterTxForImporting returns (nil, nil) *)
   fx_taskchan : bool;     (* the task queue exists before requests are served (or is nil-tested) *)
-  fx_select_neg : bool    (* GetTxHistory treats wanted <= 0 as the default *)
+  fx_select_neg : bool;   (* GetTxHistory treats wanted <= 0 as the default *)
+  fx_cur_evicted : bool;  (* GetManagedAddressByScriptHashInCurrent tests the cache look-up (as ChangePrivPassphrase does) *)
+  fx_bindhist_hash : bool (* GetBindingHistoryDetail compares the hash of the transaction it fetched by (height, location) with the
+                             recorded one (as TxStore.ExistsTx does) and skips the row when the node's chain has changed there *)
 }.
 Definition all_fixed : fixes :=
   {| fx_cti_index := true; fx_cti_block := true; fx_cti_dup := true; fx_senders := true; fx_sign_meta := true; fx_sign_len0 := true;
-     fx_cur_nil := true; fx_cur3_nil := true; fx_import_rec := true; fx_taskchan := true; fx_select_neg := true |}.
+     fx_cur_nil := true; fx_cur3_nil := true; fx_import_rec := true; fx_taskchan := true; fx_select_neg := true;
+     fx_cur_evicted := true; fx_bindhist_hash := true |}.
 (* the switches as /repo stands now *)
 Definition current_code : fixes :=
   {| fx_cti_index := true; fx_cti_block := true; fx_cti_dup := true; fx_senders := true; fx_sign_meta := true; fx_sign_len0 := true;
-     fx_cur_nil := true; fx_cur3_nil := true; fx_import_rec := true; fx_taskchan := true; fx_select_neg := true |}.
+     fx_cur_nil := true; fx_cur3_nil := true; fx_import_rec := true; fx_taskchan := true; fx_select_neg := true;
+     fx_cur_evicted := false; fx_bindhist_hash := false |}.
 Definition as_found : fixes :=
   {| fx_cti_index := false; fx_cti_block := false; fx_cti_dup := false; fx_senders := false; fx_sign_meta := false; fx_sign_len0 := false;
-     fx_cur_nil := false; fx_cur3_nil := false; fx_import_rec := false; fx_taskchan := false; fx_select_neg := false |}.
+     fx_cur_nil := false; fx_cur3_nil := false; fx_import_rec := false; fx_taskchan := false; fx_select_neg := false;
+     fx_cur_evicted := false; fx_bindhist_hash := false |}.
 
 (* ---------------------------------------------------------------- wire.NewHashFromStr *)
 (* at most 64 hex characters; the value of the hex numeral identifies the hash *)
@@ -387,6 +396,139 @@ Definition filter_imp_input (nout idxv : Z) : outcome unit :=
 Definition filter_block_loc (ntx nlocs i : Z) : outcome unit :=
   bind (idx PTxLocsIndex (repeat tt (Z.to_nat nlocs)) i) (fun _ => Ok tt).
 
+(* ---------------------------------------------------------------- api/block_service.go, api/tx_service.go: transactions the node serves *)
+(* one input of a transaction of a served block / of a binding deposit, as the API resolves it on the node *)
+Record bin := {
+  bi_prev : option Z;    (* number of outputs of the previous transaction the node finds (Blockchain().GetTransaction,
+                            TxMemPool().FetchTransaction / GetTransactionInDB); None = not found *)
+  bi_index : Z;          (* txIn.PreviousOutPoint.Index *)
+  bi_game : bool;        (* that output is a staking or a binding output (getTxType answers at once) *)
+  bi_addr_ok : bool      (* extractAddressInfos / ParsePkScript accept its script *)
+}.
+Record btx := {
+  bt_coinbase : bool;    (* blockchain.IsCoinBaseTx *)
+  bt_game_out : bool;    (* one of its own outputs is a staking or binding output *)
+  bt_ins : list bin;
+  bt_vout_ok : bool;     (* createVoutList succeeds *)
+  bt_rest_ok : bool      (* fee formatting and getStatus succeed *)
+}.
+
+Definition ErrAPINoTxInfo : Z := 1101.
+
+(* getTxType: the inputs are looked at only when no output decides; the first staking/binding input decides *)
+Fixpoint tx_type_ins (ins : list bin) : outcome Z :=
+  match ins with
+  | [] => Ok 3
+  | i :: r =>
+      match bi_prev i with
+      | None => Err ErrAPINoTxInfo
+      | Some n => bind (idx PTxTypeIndex (repeat tt (Z.to_nat n)) (bi_index i)) (fun _ =>
+                  if bi_game i then Ok 1 else tx_type_ins r)
+      end
+  end.
+Definition get_tx_type (t : btx) : outcome Z :=
+  if bt_coinbase t then Ok 4 else if bt_game_out t then Ok 1 else tx_type_ins (bt_ins t).
+
+(* createVinList(mtx, isCoinbase): every input (but the first of a coinbase) *)
+Fixpoint vin_list (skip_first : bool) (ins : list bin) : outcome unit :=
+  match ins with
+  | [] => Ok tt
+  | i :: r =>
+      if skip_first then vin_list false r
+      else match bi_prev i with
+           | None => Err ErrBelow
+           | Some n => bind (idx PVinIndex (repeat tt (Z.to_nat n)) (bi_index i)) (fun _ =>
+                       if bi_addr_ok i then vin_list false r else Err ErrBelow)
+           end
+  end.
+
+(* createBlockTx *)
+Definition create_block_tx (t : btx) : outcome unit :=
+  bind (get_tx_type t) (fun ty =>
+  if negb (bt_vout_ok t) then Err ErrBelow
+  else bind (vin_list (ty =? 4) (bt_ins t)) (fun _ => if bt_rest_ok t then Ok tt else Err ErrBelow)).
+
+(* createTxRawResult (GetRawTransaction) *)
+Definition create_tx_raw_result (t : btx) : outcome unit :=
+  if negb (bt_vout_ok t) then Err ErrBelow
+  else bind (vin_list (bt_coinbase t) (bt_ins t)) (fun _ => if bt_rest_ok t then Ok tt else Err ErrBelow).
+
+(* marshalGetBlockResponse: header fields, proposals, then createBlockTx for every transaction *)
+Definition marshal_block (b : list btx) : outcome unit := check_all create_block_tx b.
+
+(* GetBlockStakingReward: txOuts[j] for j < coinbasePayload.NumStakingReward() *)
+Definition reward_outs (n nout : Z) : outcome unit :=
+  check_all (fun j => bind (idx PRewardTxOut (repeat tt (Z.to_nat nout)) j) (fun _ => Ok tt))
+            (map Z.of_nat (seq 0 (Z.to_nat n))).
+
+(* ---------------------------------------------------------------- GetBindingHistory (wallet.go, txmgr/utxostore.go, api/tx_service.go) *)
+(* one row of the (unmined or mined) binding history of the current wallet *)
+Record bind_row := {
+  br_mined : bool;
+  br_vout : Z;                        (* history.vout *)
+  br_same : bool;                     (* mined rows: the block the node has at the recorded height still holds the recorded transaction
+                                         at the recorded location (false after the node reorganised and before the wallet followed) *)
+  br_tx : option (list (option bool)); (* chainFetcher.FetchTxByLoc(height, loc) resp. the unmined record; None = error / not found: the row is
+                                          skipped. Per output what utils.ParsePkScript says: None = error, Some b: b = it is a binding script *)
+  br_amount : Z;                      (* amount of the credit *)
+  br_coinbase : bool;
+  br_ins : list bin                   (* inputs of that transaction as GetBindingHistory resolves them (GetTransactionInDB) *)
+}.
+
+(* GetUnminedBindingHistoryDetail / GetBindingHistoryDetail: one row -> a detail (and whether its BindingTarget is not nil), or skipped *)
+Definition bind_detail (fx : fixes) (r : bind_row) : outcome (option (bool * bind_row)) :=
+  match br_tx r with
+  | None => Ok None
+  | Some t =>
+      if fx_bindhist_hash fx && br_mined r && negb (br_same r) then Ok None     (* repaired: hash mismatch, skipped *)
+      else bind (idx PBindHistIndex t (br_vout r)) (fun o =>
+           match o with
+           | None => Err ErrBelow
+           | Some b => Ok (Some (b, r))          (* Holder: script.StdAddress(), BindingTarget: script.SecondAddress() *)
+           end)
+  end.
+
+Fixpoint bind_details (fx : fixes) (rows : list bind_row) : outcome (list (bool * bind_row)) :=
+  match rows with
+  | [] => Ok []
+  | r :: rest => bind (bind_detail fx r) (fun d =>
+                 bind (bind_details fx rest) (fun ds => Ok (match d with Some x => x :: ds | None => ds end)))
+  end.
+
+(* the from-addresses of a deposit that is not a coinbase *)
+Fixpoint bind_froms (ins : list bin) : outcome unit :=
+  match ins with
+  | [] => Ok tt
+  | i :: r =>
+      match bi_prev i with
+      | None => Err ErrAPIQueryDataFailed
+      | Some n => bind (idx PBindHistPrevIndex (repeat tt (Z.to_nat n)) (bi_index i)) (fun _ =>
+                  if bi_addr_ok i then bind_froms r else Err ErrAPIAbnormalData)
+      end
+  end.
+
+(* the API's loop over the details *)
+Definition bind_history_entry (d : bool * bind_row) : outcome unit :=
+  let r := snd d in
+  bind (match amount_to_string_p (br_amount r) with Ok _ => Ok tt | Err _ => Err ErrAPIInvalidAmount | Panic p => Panic p end) (fun _ =>
+  bind (if br_coinbase r then Ok tt else bind_froms (br_ins r)) (fun _ =>
+  if fst d then Ok tt else Panic PBindHistTargetNil)).          (* detail.Utxo.BindingTarget.EncodeAddress() *)
+
+Definition get_binding_history (fx : fixes) (w : wst) (rows : list bind_row) : outcome unit :=
+  match cur w with
+  | None => Err ErrAPINoWalletInUse
+  | Some _ => bind (bind_details fx rows) (fun ds => check_all bind_history_entry ds)
+  end.
+
+(* GetStakingHistory: the node's staking rank, WalletManager.GetStakingHistory, AmountToString of every row *)
+Definition get_staking_history (w : wst) (node_ok : bool) (rows : list Z) : outcome unit :=
+  if negb node_ok then Err ErrAPIGetStakingTxDetail
+  else match cur w with
+       | None => Err ErrAPIGetStakingTxDetail
+       | Some _ => check_all (fun a => match amount_to_string_p a with
+                                       | Ok _ => Ok tt | Err _ => Err ErrAPIGetStakingTxDetail | Panic p => Panic p end) rows
+       end.
+
 (* ---------------------------------------------------------------- the API, request by request *)
 (* the environment of one call: everything behind the modelled part *)
 Record env := {
@@ -395,11 +537,49 @@ Record env := {
   e_sign_ok : bool;
   e_selected : list (N * Z);               (* coins an automatic transaction selects *)
   e_next_addr : option (list unit);        (* NextAddresses result *)
-  e_history_batches : list (list Z)        (* GetTxHistory: per 500-block batch, the number of related transactions per height *)
+  e_history_batches : list (list Z);       (* GetTxHistory: per 500-block batch, the number of related transactions per height *)
+  e_block : option (list btx);             (* GetBlockByHeight / GetBestBlock: the transactions of the block the node returns; None = no block *)
+  e_rawtx : option btx;                    (* GetRawTransaction: the transaction the mempool / the chain returns *)
+  e_best : Z;                              (* Blockchain().BestBlockHeight() *)
+  e_reward : option (Z * Z);               (* GetBlockStakingReward: NumStakingReward() of the coinbase payload and len(coinbase.TxOut);
+                                              None = rank list / block / payload not available *)
+  e_stake_rows : list Z;                   (* GetStakingHistory: amounts of the rows *)
+  e_bind_rows : list bind_row              (* GetBindingHistory: unmined rows, then mined rows *)
 }.
 
 Section Handle.
   Variable trim : str -> str.
+  Variable cd : codecs.
+
+  (* CheckTargetBinding: one target *)
+  Definition check_target (e : env) (t : str) : outcome unit :=
+    let a := c_addr cd (trim t) in
+    if negb (is_valid_binding_target a) then Ok tt              (* "Unknown" *)
+    else match a with
+         | APubKeyHash => if e_rest_ok e then Ok tt else Err ErrAPIQueryDataFailed      (* FetchOldBinding *)
+         | _ => if negb (e_rest_ok e) then Err ErrAPIQueryDataFailed                    (* GetNewBinding *)
+                else bind (idx PTargetIdx (repeat tt (Z.to_nat (script_len a))) 20) (fun _ =>
+                     bind (idx PTargetIdx (repeat tt (Z.to_nat (script_len a))) 21) (fun _ => Ok tt))
+         end.
+
+  (* ValidateAddress -> WalletManager.IsAddressInCurrent -> KeystoreManager.GetManagedAddressByScriptHashInCurrent *)
+  Definition validate_address (fx : fixes) (e : env) (w : wst) (a : str) : outcome unit :=
+    match c_addr cd a with
+    | ADecErr => Ok tt                              (* answered: not valid *)
+    | c =>
+        if negb (evicted w) && (match cur w with None => true | Some _ => false end)
+        then Err ErrAPINoWalletInUse                (* km.currentKeystore == nil: ErrCurrentKeystoreNotFound *)
+        else if negb (script_len c =? 32) then Err ErrAPIInvalidAddress     (* NewAddressWitnessScriptHash(scriptHash) refuses *)
+        else if evicted w then (if fx_cur_evicted fx then Err ErrAPINoWalletInUse else Panic PCurEvictedNil)
+        else Ok tt                                  (* mine or not mine *)
+    end.
+
+  (* the automatic transactions: EstimateTxFee / EstimateStakingTxFee / EstimateBindingTxFee begin with prepareFromAddresses *)
+  Definition auto_tx (fx : fixes) (e : env) (w : wst) : outcome unit :=
+    match cur w with
+    | None => Err ErrAPINoWalletInUse
+    | Some _ => wm_auto_create fx w (e_selected e) (e_rest_ok e)
+    end.
 
   Definition answer (e : env) : outcome unit := if e_rest_ok e then Ok tt else Err ErrBelow.
 
@@ -421,17 +601,18 @@ Section Handle.
           (map (fun i => {| in_txid := trim (in_txid i); in_vout := in_vout i |}) inputs)
           (null (trim change)) (e_rest_ok e)
     | RWmCreateRawTransaction inputs _ change_empty => wm_create_raw_transaction fx w inputs change_empty (e_rest_ok e)
-    | RAutoCreateTransaction _ _ _ _ _ | RCreateStakingTransaction _ _ _ _ _ =>
-        match cur w with
-        | None => Err ErrBelow          (* the remaining argument checks (addresses, staking value, fee) or ErrNoWalletInUse *)
-        | Some _ => wm_auto_create fx w (e_selected e) (e_rest_ok e)
-        end
-    | RGetTransactionFee _ inputs _ =>
+    | RAutoCreateTransaction _ _ _ _ _ | RCreateStakingTransaction _ _ _ _ _
+    | RCreateBindingTransaction _ _ _ | RCreatePoolPkCoinbaseTransaction _ _ => auto_tx fx e w
+    | RGetTransactionFee amounts inputs has_binding =>
         match cur w with
         | None => Err ErrAPINoWalletInUse
         | Some _ =>
             match inputs with
-            | [] => wm_auto_create fx w (e_selected e) (e_rest_ok e)
+            | [] =>
+                (* binding: checkWitnessAddress of every key, then its amount; otherwise the amounts only *)
+                bind (check_all (fun kv => bind (if has_binding then check_witness_address cd (fst kv) false else Ok tt) (fun _ =>
+                                           bind (check_parse_amount (snd kv)) (fun _ => Ok tt))) amounts) (fun _ =>
+                wm_auto_create fx w (e_selected e) (e_rest_ok e))
             | _ => bind (check_all (fun i => check_txid_len (in_txid i)) inputs) (fun _ =>
                    bind (estimate_manual_tx_fee fx w inputs) (fun _ => answer e))
             end
@@ -458,11 +639,39 @@ Section Handle.
         | None => Err ErrAPINoWalletInUse
         | Some _ => get_tx_history fx (e_history_batches e) count
         end
+    | RValidateAddress a => validate_address fx e w a
+    | RGetRawTransaction _ =>
+        match e_rawtx e with
+        | None => Err ErrBelow
+        | Some t => create_tx_raw_result t
+        end
+    | RGetStakingHistory _ => get_staking_history w (e_rest_ok e) (e_stake_rows e)
+    | RGetBindingHistory _ => get_binding_history fx w (e_bind_rows e)
+    | RSendRawTransaction h =>
+        match decode_hex_str h with
+        | None => Err ErrAPIInvalidTxHex
+        | Some raw => match e_decode_tx e raw with
+                      | None => Err ErrAPIInvalidTxHex
+                      | Some _ => answer e            (* the fork tests, ProcessTx, ClearUsedUTXOMark *)
+                      end
+        end
+    | RCheckTargetBinding targets => check_all (check_target e) targets
+    | RGetBlockByHeight _ | RGetBestBlock =>
+        match e_block e with
+        | None => Err ErrAPIBlockNotFound
+        | Some b => marshal_block b
+        end
+    | RGetBlockStakingReward height =>
+        if e_best e <? height then Err ErrAPIInvalidParameter
+        else match e_reward e with
+             | None => Err ErrBelow
+             | Some (n, nout) => bind (reward_outs n nout) (fun _ => answer e)
+             end
     | _ => answer e
     end.
 
   Definition handle (fx : fixes) (e : env) (w : wst) (r : request) : outcome unit :=
-    bind (prologue trim r) (fun _ => deep fx e w r).
+    bind (prologue trim cd r) (fun _ => deep fx e w r).
 End Handle.
 
 (* ---------------------------------------------------------------- well-formed states *)
@@ -485,9 +694,25 @@ Definition sequential (w : wst) : Prop := cur2 w = cur w /\ cur3 w = cur w.
 
 Definition wf (w : wst) : Prop := wf_store (st w).
 
+(* chain consistency (the node validated the block / the unconfirmed transaction): an input refers to an existing output *)
+Definition wf_bin (i : bin) : Prop := forall n, bi_prev i = Some n -> 0 <= bi_index i < n.
+Definition wf_btx (t : btx) : Prop := Forall wf_bin (bt_ins t).
+
+(* a row of the binding history was written for a binding output of the recorded transaction: as long as the fetched
+   transaction IS the recorded one (unmined rows: always), output [vout] exists and is a binding script *)
+Definition wf_bind_row (r : bind_row) : Prop :=
+  Forall wf_bin (br_ins r) /\
+  ((br_mined r = false \/ br_same r = true) ->
+   forall t, br_tx r = Some t -> 0 <= br_vout r /\ nth_error t (Z.to_nat (br_vout r)) = Some (Some true)).
+
 Definition wf_env (e : env) : Prop :=
   (forall mas, e_next_addr e = Some mas -> length mas = 1%nat) /\
-  Forall (Forall (fun l => 0 <= l)) (e_history_batches e).
+  Forall (Forall (fun l => 0 <= l)) (e_history_batches e) /\
+  (forall b, e_block e = Some b -> Forall wf_btx b) /\
+  (forall t, e_rawtx e = Some t -> wf_btx t) /\
+  (* consensus: the coinbase pays the staking rewards its payload announces *)
+  (forall n nout, e_reward e = Some (n, nout) -> n <= nout) /\
+  Forall wf_bind_row (e_bind_rows e).
 
 (* the coins an automatic transaction selects are credits of the store *)
 Definition selected_ok (w : wst) (e : env) : Prop :=
@@ -514,5 +739,7 @@ Definition guarded_by (fx : fixes) (p : site) : bool :=
   | PImportRecNil => fx_import_rec fx
   | PTaskChanNil => fx_taskchan fx
   | PSelectSlice => fx_select_neg fx
+  | PBindHistIndex | PBindHistTargetNil => fx_bindhist_hash fx
+  | PCurEvictedNil => fx_cur_evicted fx
   | _ => true
   end.
